@@ -23,7 +23,8 @@ import (
 // Sanitize archive file pathing from "G305: Zip Slip vulnerability"
 func sanitizeArchivePath(d, t string) (v string, err error) {
 	v = filepath.Join(d, t)
-	if strings.HasPrefix(v, filepath.Clean(d)) {
+	// Compare component-wise, not on strings: "/r2/x" is not below "/r".
+	if rel, err := filepath.Rel(d, v); err == nil && rel != ".." && !strings.HasPrefix(rel, ".."+string(filepath.Separator)) {
 		return v, nil
 	}
 
